@@ -113,6 +113,11 @@ def run(ctx):
                         obj.order = order
                     if 'n' in kw:
                         obj.n = n
+                far = rng.random() < 0.3
+                if far:
+                    # the same object was used before at a far-away point of the same shape (nominal steps there are ~15 times larger)
+                    obj(x + np.where(x >= 0, 2.0e6, -2.0e6))
+                    del rec[:]
                 obj(x)
         except Exception as ex:
             ctx.violation('%s raised %r while recording evaluation points' % (cls, ex), cls=cls, method=m, n=n, order=order, x=x.tolist())
@@ -122,7 +127,9 @@ def run(ctx):
         xi = np.asarray(x) if cls == 'Derivative' else np.atleast_1d(x)
         if cls == 'Gradient':
             xi = np.atleast_1d(x).ravel()
-        steps = [np.atleast_1d(np.asarray(s, dtype=float)) * np.ones(x.shape) for s in generated_steps(obj, xi)[0]]
+        # ... asked of a brand-new object of the same configuration, so that nothing remembered by `obj` enters the bound
+        fresh = C(lambda t: t, **kw)
+        steps = [np.atleast_1d(np.asarray(s, dtype=float)) * np.ones(x.shape) for s in generated_steps(fresh, xi)[0]]
         name = obj.fd_rule.diff.__name__
         evalfirst = (m in ('complex', 'multicomplex')) or bool(obj.fd_rule.eval_first_condition) or cls in ('Gradient', 'Jacobian')
         metas.append((len(lines), len(steps), rec, name, evalfirst, max(float(np.max(np.abs(s_))) for s_ in steps)))
